@@ -204,7 +204,6 @@ def PtF (ui uj pi pj oi oj qi qj gUi_j gUj_i gPi_j gPj_i gOi_j gOj_i lt ie je : 
   (gPj_i = true → ie = true → je = false) ∧ (gPi_j = true → je = true → ie = false)
 
 set_option synthInstance.maxSize 4000 in
-set_option synthInstance.maxHeartbeats 400000 in
 instance (ui uj pi pj oi oj qi qj gUi_j gUj_i gPi_j gPj_i gOi_j gOj_i lt ie je : Bool) :
     Decidable (PtF ui uj pi pj oi oj qi qj gUi_j gUj_i gPi_j gPj_i gOi_j gOj_i lt ie je) := by
   unfold PtF; exact inferInstance
